@@ -8,6 +8,28 @@ evidence); nothing is guessed or defaulted.
 namespace Driver.SqlSexp
 open Driver Dawgs.Sql
 
+/-- Go's `%g`-style rendering of a float64 (`1.6777217e+07`, `1e-07`) as plain decimal text -/
+def plainDecimal (s : String) : String :=
+  match s.splitOn "e" with
+  | [m, e] =>
+    let (neg, body) := if m.startsWith "-" then (true, (m.drop 1).toString) else (false, m)
+    let (ip, fp) := match body.splitOn "." with
+      | [i, f] => (i, f)
+      | _ => (body, "")
+    let eStr := if e.startsWith "+" then (e.drop 1).toString else e
+    match eStr.toInt? with
+    | none => s
+    | some k =>
+      let digits := ip ++ fp
+      let point : Int := (ip.length : Int) + k          -- position of the decimal point in `digits`
+      let txt :=
+        if point ≤ 0 then "0." ++ String.ofList (List.replicate point.natAbs '0') ++ digits
+        else if point.toNat ≥ digits.length then digits ++ String.ofList (List.replicate (point.toNat - digits.length) '0')
+        else (digits.take point.toNat).toString ++ "." ++ (digits.drop point.toNat).toString
+      (if neg then "-" else "") ++ txt
+  | _ => s
+
+
 abbrev R := Except String
 
 def fields : Sexp → Option (String × List Sexp)
@@ -78,7 +100,7 @@ def litOf (v : Sexp) : R Lit :=
   | .atom a => match a.toInt? with
     | some i => .ok (.int i)
     | none => .error s!"Literal.Value:atom"
-  | .list [.atom "f64", .str s] => .ok (.float s)
+  | .list [.atom "f64", .str s] => .ok (.float (plainDecimal s))
   | .list (.atom "list" :: xs) =>
     match xs.mapM asInt? with
     | some is => .ok (.ints is)
